@@ -115,6 +115,7 @@ def run(ctx, rep):
     rep.guarded('D4.d4', d4, ctx, rep)
     rep.guarded('D5.d5_lanes', d5_lanes, ctx, rep)
     rep.guarded('D6.d6_blocks', d6_blocks, ctx, rep)
+    rep.guarded('D7.d7_kernel', d7_kernel, ctx, rep)
 
 
 def d1(ctx, rep):
@@ -808,3 +809,81 @@ def d4(ctx, rep):
                           construct='search bounds')
             else:
                 rep.undecided('D4.quantile', gb, rets[0], 'form of the search bounds not recognised', construct='search bounds')
+
+
+# ------------------------------------------------------------------ D7 the hand-written KDE CDF uses the estimator's own kernel
+def d7_kernel(ctx, rep):
+    """GaussianKDE.cumulative_distribution integrates the kernels itself (ndtr of standardised distances).  The density,
+    log-density and sampler use the fitted scipy estimator, so the CDF is its integral only if it standardises by the
+    estimator's own bandwidth (its covariance, which already reflects bw_method and weights), centres the kernels on the
+    estimator's dataset and combines them with the estimator's weights."""
+    from ..idioms import resolve
+    prog = ctx.prog
+    rep.rule('D7.kernel', 'the hand-written KDE CDF standardises by the fitted estimator\'s own bandwidth (self._model.covariance / inv_cov), '
+             'centres the kernels on self._model.dataset and combines them with self._model.weights')
+    kde = prog.cls(KDE)
+    m = kde.methods.get('cumulative_distribution')
+    if m is None:
+        rep.undecided('D7.kernel', kde.methods.get('_fit') or next(iter(kde.methods.values())), 'GaussianKDE', 'GaussianKDE does not define cumulative_distribution itself',
+                      construct='kernel CDF')
+        return
+    calls = [c for c in walk_no_nested(m.node) if isinstance(c, ast.Call) and (prog.resolve(m.module, c.func) or '') in (
+        'scipy.special.ndtr', 'scipy.stats.norm.cdf') and c.args]
+    if not calls:
+        rep.undecided('D7.kernel', m, m.node.name, 'no standard-normal CDF call (ndtr / norm.cdf) in the KDE CDF: its form is not the one this rule models',
+                      construct='kernel CDF')
+        return
+
+    def mentions(e, *attrs):
+        """e (with locals resolved) reads self._model.<attr> for one of attrs."""
+        seen, todo = set(), [e]
+        while todo:
+            x = todo.pop()
+            for n in ast.walk(x):
+                if isinstance(n, ast.Attribute) and n.attr in attrs and isinstance(n.value, ast.Attribute) and is_self_attr(n.value, m.self_name, '_model'):
+                    return True
+                if isinstance(n, ast.Name) and n.id not in seen and n.id not in m.params:
+                    seen.add(n.id)
+                    d_ = resolve(m.node, n)
+                    if d_ is not n and isinstance(d_, ast.AST):
+                        todo.append(d_)
+        return False
+
+    for c in calls:
+        a = resolve(m.node, c.args[0])
+        label = 'upper kernel sums' if any(isinstance(x, ast.Name) and x.id == m.params[1] for x in ast.walk(c.args[0])) or \
+            any(isinstance(x, ast.Name) and x.id == m.params[1] for x in ast.walk(a)) else 'lower bound term'
+        if not (isinstance(a, ast.BinOp) and isinstance(a.op, (ast.Div, ast.Mult))):
+            rep.undecided('D7.kernel', m, c, f'`{short(c, 60)}`: the argument is not a standardised distance (difference / bandwidth)', construct=f'kernel CDF: {label}')
+            continue
+        num, den = a.left, a.right
+        if isinstance(a.op, ast.Mult) and not isinstance(resolve(m.node, num), ast.BinOp):
+            num, den = den, num
+        good_bw = mentions(den, 'covariance', 'inv_cov', 'cho_cov')
+        fixed_rule = any(isinstance(n, ast.Attribute) and n.attr in ('scotts_factor', 'silverman_factor') for n in ast.walk(resolve(m.node, den))) or \
+            any(isinstance(n, ast.Attribute) and n.attr in ('scotts_factor', 'silverman_factor') for nm_ in ast.walk(den) if isinstance(nm_, ast.Name)
+                for n in ast.walk(resolve(m.node, nm_)))
+        if good_bw:
+            rep.ok('D7.kernel', m, c, 'standardised by the estimator\'s covariance', construct=f'kernel CDF: {label} bandwidth')
+        elif fixed_rule:
+            rep.bad('D7.kernel', m, c, f'the bandwidth `{short(resolve(m.node, den), 60)}` applies a fixed rule of thumb instead of the fitted estimator\'s covariance: with bw_method '
+                    '= silverman / a scalar (or with weights) the CDF is no longer the integral of probability_density', construct=f'kernel CDF: {label} bandwidth')
+        else:
+            rep.undecided('D7.kernel', m, c, f'where the bandwidth `{short(den, 40)}` comes from is not derived', construct=f'kernel CDF: {label} bandwidth')
+        centred = mentions(num, 'dataset')
+        if centred:
+            rep.ok('D7.kernel', m, c, 'kernels centred on self._model.dataset', construct=f'kernel CDF: {label} centres')
+        else:
+            rep.undecided('D7.kernel', m, c, f'the kernel centres in `{short(num, 40)}` are not self._model.dataset', construct=f'kernel CDF: {label} centres')
+    rets = [r for r in walk_no_nested(m.node) if isinstance(r, ast.Return) and r.value is not None]
+    for r in rets:
+        v = resolve(m.node, r.value)
+        if isinstance(v, ast.Call) and isinstance(v.func, ast.Attribute) and v.func.attr in ('dot',) and v.args and mentions(v.args[0], 'weights'):
+            rep.ok('D7.kernel', m, r, 'kernel CDFs combined with self._model.weights', construct='kernel CDF: weights')
+        elif isinstance(v, ast.Call) and call_name(v) in ('mean', 'average') and not mentions(v, 'weights'):
+            rep.bad('D7.kernel', m, r, f'`{short(v, 60)}` averages the kernels uniformly: the configured weights are ignored, unlike in probability_density',
+                    construct='kernel CDF: weights')
+        elif mentions(v, 'weights'):
+            rep.ok('D7.kernel', m, r, 'kernel CDFs combined with self._model.weights', construct='kernel CDF: weights')
+        else:
+            rep.undecided('D7.kernel', m, r, 'how the kernel CDFs are combined is not recognised', construct='kernel CDF: weights')
